@@ -455,3 +455,23 @@ def config_check(seed, tier, wd):
     for runno, text in run.tagged(out, "CFGVIOL"):
         viol.append((runno, text, recs[runno - 1]))
     return {"runs": len(recs), "started": sum(1 for r in recs if r["started"]), "violations": viol, "samples": [recs[0], recs[len(recs) // 2]]}
+
+
+def mpp_check(seed, tier, wd):
+    """C11 on the real binary: the MPP timeout that governs incomplete sets is the configured trampoline-mpp-timeout
+    (not another option).  Returns ConfigTrace violations of kind MppTimeout."""
+    build()
+    T = templates()
+    vs = [dict(DEFAULTS, mpp=1, paytimeout=5), dict(DEFAULTS, mpp=2, paytimeout=1), dict(DEFAULTS, mpp=0, paytimeout=3)]
+    from concurrent.futures import ThreadPoolExecutor
+    with ThreadPoolExecutor(max_workers=3) as ex:
+        recs = list(ex.map(lambda kv: one_config(kv[0] + 1, kv[1], T, True), enumerate(vs)))
+    tf = wd + "/mpp.ndjson"
+    with open(tf, "w") as f:
+        for r in recs:
+            f.write(json.dumps(r) + "\n")
+    rc, out = run.tlc_trace("ConfigTrace.tla", "ConfigTrace.cfg", tf, wd + "/mppt")
+    if "No error has been found" not in out:
+        raise run.ToolError("ConfigTrace failed:\n" + out[-2500:])
+    viol = [(runno, text, recs[runno - 1]) for runno, text in run.tagged(out, "CFGVIOL") if "MppTimeout" in text]
+    return {"runs": len(recs), "violations": viol}
